@@ -76,6 +76,13 @@ def check(prog: Program, rep):
     rep.rule("C08.R5", "node-weighted input: expansion scheme, attribute handling (missing => ignored, present incl. 0 => weighted)", floor=12)
     from rules.common import node_mode_plumbing
     node_mode_plumbing(prog, rep, "C08.R5")
+    rep.rule("C08.R8", "cyclic model: the repetition cap and the product bound are justified (exact flow row, weights >= 1); DAG and cyclic filters decide "
+             "emptiness on the internal route (C01.R5)", floor=5)
+    from rules.bounds import cap_premises
+    cap_premises(prog, rep, "C08.R8", "kMinPathErrorCycles", which=("P2", "P3", "P4"))
+    from rules.common import RuleProxy as _RP
+    from rules import ns as _ns
+    _ns.arity_rule(prog, _RP(rep, "C08.R8"), "C01.R5", only=("kMinPathError", "kMinPathErrorCycles"))
     rep.rule("C08.R7", "cyclic model: the walks handed out traverse every edge exactly as often as the solver decided (linear-use rule of C14.R1)", floor=6)
     from rules import c14
     from rules.common import RuleProxy
@@ -84,3 +91,5 @@ def check(prog: Program, rep):
     c14.trail_loop_rule(prog, px, "C14.R1", prog.own_method("AbstractWalkModelDiGraph", "_build_closed_walk_from_vertex"), ("closed_walk",))
     c14.residual_rule(prog, px, "C14.R1")
     c14.splice_rule(prog, px, "C14.R1")
+    from rules.providers import given_weights_integral
+    given_weights_integral(prog, rep, "C08.R8", ["kMinPathError"])
